@@ -41,11 +41,19 @@ func genC13(rng *rand.Rand, c *Case) {
 	case 2:
 		c.Cfg["fifo_senders"] = 1
 		c.Cfg["nopart2"] = 1
+		// third mechanism of the known finding: the user-list reply is assembled from unlocked reads of the other
+		// connections' name/icon/flags and is not ordered with their change notices; it needs a preemption inside a
+		// handler, which only function-entry scheduling points provide - off in this mode
+		c.Cfg["fnyield"] = 0
 	}
 	if rng.Intn(4) == 0 {
 		// history with more than 65,535 earlier connections: the id counter is about to wrap
 		c.Cfg["wrap"] = 65536 - rng.Intn(4)
 		c.Cfg["wrap_after"] = 1 + rng.Intn(n) // this many clients are long-lived and logged in before the counter wraps
+	}
+	// outside serial mode: somebody logs in with an account at the instant the administrator deletes it
+	if c.Cfg["serial"] == 0 {
+		c.Cfg["ghostrace"] = rng.Intn(2)
 	}
 	for i := 0; i < n; i++ {
 		c.Cfg[fmt.Sprintf("flav%d", i)] = rng.Intn(2)
@@ -183,6 +191,7 @@ func runC13(w *World) {
 		w.AddAccount(fmt.Sprintf("acct%d", i), fmt.Sprintf("Acct %d", i), "", base)
 	}
 	w.AddAccount("root", "Root", "rootpw", rp.AllAccess())
+	w.AddAccount("tempacct", "Temp", "", base)
 	si := w.StartServer()
 	// history with more than 65,535 connections: once the first wrap_after clients are logged in, the
 	// scheduler goroutine (no thread runs) performs cfg["wrap"] connect/disconnect pairs through the
@@ -275,6 +284,20 @@ func runC13(w *World) {
 		simrt.Wake(&fin)
 	}
 
+	if cfg["ghostrace"] == 1 {
+		w.Sim.Go("tmp", false, func() {
+			tc := w.NewClient("tempuser", "10.1.9.9") // created here: the clients 0..n keep their indices
+			for nready < n+1 {
+				simrt.Park(&ready)
+			}
+			w.Meet(9999, 2)
+			if tc.Login("tempacct", "", "tempuser", 77) {
+				w.Probe("login_survived_account_deletion_race")
+				Delay(30)
+			}
+			tc.Disconnect()
+		})
+	}
 	for i := 0; i <= n; i++ {
 		idx := i
 		names[i] = fmt.Sprintf("user%d", i)
@@ -330,6 +353,16 @@ func runC13(w *World) {
 			}
 			giveTurn()
 			orng := rand.New(rand.NewSource(w.Case.Seed ^ int64(idx+1)*7919))
+			if idx == n && cfg["ghostrace"] == 1 {
+				for nready < n+1 {
+					simrt.Park(&ready)
+				}
+				w.Meet(9999, 2)
+				Delay(orng.Intn(40))
+				c.DeleteUser("tempacct")
+				away[idx] = false
+				w.Probe("account_deleted_during_a_login")
+			}
 			for _, op := range w.Case.Ops {
 				if op.C != idx || c.Closed {
 					continue
